@@ -658,3 +658,47 @@ def neighbours(op, rng):
                 if k not in seen:
                     seen.add(k)
                     yield "M %s %s %s %s" % (w[1], hx(a), hx(t), rest)
+
+
+# --------------------------------------------------------------------------------------
+# runner
+# --------------------------------------------------------------------------------------
+def _run_driver(engine, ops, workdir, tag, nproc=1):
+    """Same contract as vlib.run_driver.  The driver processes write to files instead of pipes:
+    with pipes, every process but the one currently being read stalls once it has produced 64 KB,
+    which serialises the expensive X lines (12 min instead of 1 in the thorough tier)."""
+    import vlib
+    exe = vlib.driver_path(engine)
+    if nproc <= 1 or len(ops) < 2000:
+        nproc = 1
+    per = (len(ops) + nproc - 1) // nproc if ops else 1
+    procs = []
+    for i in range(0, len(ops), per):
+        part = ops[i:i + per]
+        fn = os.path.join(workdir, "%s.drv.%d" % (tag, i))
+        with open(fn, "w") as f:
+            f.write("\n".join(part) + "\n")
+        fo = open(fn + ".out", "w")
+        procs.append((fn, len(part), fo, subprocess.Popen([exe], stdin=open(fn), stdout=fo, stderr=subprocess.PIPE, text=True)))
+    res = []
+    for fn, n, fo, p in procs:
+        _, err = p.communicate()
+        fo.close()
+        got = open(fn + ".out").read().split("\n")
+        os.remove(fn)
+        os.remove(fn + ".out")
+        if p.returncode != 0:
+            raise RuntimeError("driver failed: " + err[-2000:])
+        if got and got[-1] == "":
+            got.pop()
+        if len(got) != n:
+            raise RuntimeError("driver printed %d lines for %d ops" % (len(got), n))
+        res.extend(got)
+    return res
+
+
+def main(argv):
+    import sys
+    import vlib
+    vlib.run_driver = _run_driver
+    return vlib.main(sys.modules[__name__], argv)
